@@ -387,17 +387,7 @@ void
 #ifdef SLU_MT_VERIF
 		    SLUV_YIELD(SLUV_Y_AFTER_PIVOT);
 		    SLUV_EVENT(SLUV_E_COL_PIVOTED, pnum, jj, pivrow, *info, 0, 0);
-		    SLUV_YIELD(SLUV_Y_BEFORE_RELEASE);
-		    SLUV_EVENT(SLUV_E_COL_RELEASE, pnum, jj, jcol, 0, 0, 0);
-		    SLUV_TSAN_RELEASE(&pxgstrf_shared->spin_locks[jj]);
 #endif /* SLU_MT_VERIF */
-                    /* release column "jj", so that the other processes
-                       waiting for this column can proceed */
-		    pxgstrf_shared->spin_locks[jj] = 0;
-#ifdef SLU_MT_VERIF
-		    SLUV_YIELD(SLUV_Y_AFTER_RELEASE);
-#endif /* SLU_MT_VERIF */
-		    
 		    /* copy the U-segments to ucol[*] */
 		    if ( (*info = pzgstrf_copy_to_ucol
 			            (pnum,jj,nseg,segrep,&repfnz[k],
@@ -410,6 +400,21 @@ void
 		    /* Prune columns [0:jj-1] using column jj */
 		    pxgstrf_pruneL(jj, perm_r, pivrow, nseg, segrep,
 				   &repfnz[k], xprune, ispruned, Glu);
+
+#ifdef SLU_MT_VERIF
+		    SLUV_YIELD(SLUV_Y_BEFORE_RELEASE);
+		    SLUV_EVENT(SLUV_E_COL_RELEASE, pnum, jj, jcol, 0, 0, 0);
+		    SLUV_TSAN_RELEASE(&pxgstrf_shared->spin_locks[jj]);
+#endif /* SLU_MT_VERIF */
+                    /* release column "jj", so that the other processes
+                       waiting for this column can proceed; this has to come
+                       after pxgstrf_pruneL(): once the column is released the
+                       pipelined ancestors scan and prune the subscripts of
+                       the very supernodes that column jj is pruning */
+		    pxgstrf_shared->spin_locks[jj] = 0;
+#ifdef SLU_MT_VERIF
+		    SLUV_YIELD(SLUV_Y_AFTER_RELEASE);
+#endif /* SLU_MT_VERIF */
 
 		    /* Reset repfnz[] for this column */
 		    pxgstrf_resetrep_col (nseg, segrep, &repfnz[k]);
